@@ -1131,6 +1131,18 @@ impl Handler {
                                     // Received the requested ENR
                                     if let Some(enr) = nodes.pop() {
                                         if self.verify_enr(&enr, &node_address) {
+                                            // The ENR request has been answered: stop tracking
+                                            // it and drop its filter exemption, otherwise it
+                                            // is retransmitted and eventually times out.
+                                            if self
+                                                .active_requests
+                                                .remove_request(&node_address, &response.id)
+                                                .is_some()
+                                            {
+                                                self.remove_expected_response(
+                                                    node_address.socket_addr,
+                                                );
+                                            }
                                             // Notify the application
                                             // This can occur when we try to dial a node without an
                                             // ENR. In this case we have attempted to establish the
